@@ -1,12 +1,17 @@
 /-
-  Lemmas/Exec.lean — invariants of the whole `Execute` (CircuitModel/Conc/Exec.lean), used by Props/ExecAll.lean.
-    * `ex_step_op` / `ex_step_running` / `ex_step_fb`: what one step of an operator, of a call still inside `c.run`, and of a
-      call in Execute's decision / the fallback phase is (`ex_FbStep`);
-    * `ex_proj` / `ex_lift`: the Conc/RunDyn view of a configuration; every step is a RunDyn step of the view or leaves it
-      alone, so every step-invariant of RunDyn (`rd_EInv`, `rd_GInv`, `rd_TInv`) holds of the view;
-    * `ex_FInv`: the per-thread invariant of the fallback phase (own fallback events, what `c.run` returned, the contract);
-    * `ex_BInv`: the bulkhead invariant `GInv` of Lemmas/Conc for the fallback gauge, the ghost region existentially bound;
-    * `ex_progress`.
+  Lemmas/Exec.lean — invariants of the whole `Execute` (CircuitModel/Conc/Exec.lean), every setting live; used by
+  Props/ExecAll.lean.
+    * `ex_step_op` / `ex_step_running` / `ex_step_fb`: what one step of an operator (one store), of a call still inside `c.run`,
+      and of a call at the kill-switch gate / in Execute's decision / in the fallback phase is (`ex_FbStep`);
+    * `ex_proj` / `ex_lift`: the Conc/RunDyn view of a configuration (an operator's stores of ForcedClosed, ForceOpen and the run
+      limit ARE RunDyn's operator; its other three stores leave the view alone); every step is a RunDyn step of the view or
+      leaves it alone, so every step-invariant of RunDyn (`rd_EInv`, `rd_GInv`, `rd_TInv`) holds of the view;
+    * `ex_SInv`: each live setting has its initial value or one an operator of the job list installs;
+    * `ex_FInv`: the per-thread invariant (own fallback events, direct calls, which way the thread went at the gate, what
+      `c.run` returned, the contract), `ex_Inv` = it and `rd_EInv` of the view together;
+    * `ex_BInv` / `ex_LInv`: the bulkhead invariant `GInv` of Lemmas/Conc for the fallback gauge, the ghost region
+      existentially bound, read at -1 (pure counting) and at the largest fallback limit ever in force;
+    * `ex_progress`, the readouts, the kill switch always on.
 -/
 import CircuitModel.Conc.Exec
 import CircuitProofs.Lemmas.RunDyn
@@ -20,31 +25,58 @@ def ex_sc : Run.Job → Run.Script
   | .call sc => sc
   | _ => {}
 
-theorem ex_step_op (i : Nat) (s : Exec.Shared) (fo fc : Bool) (m : Int) (k : Nat) (s' : Exec.Shared) (l' : Exec.Local)
-    (h : Exec.step i s (.op fo fc m k) = some (s', l')) :
-    ∃ sr k', RunDyn.step i s.r (.op fo fc m k) = some (sr, .op fo fc m k') ∧ s' = { s with r := sr } ∧
-      l' = .op fo fc m k' := by
+/-- the RunDyn operator an Exec operator is as far as `c.run` is concerned: its stores of ForcedClosed, ForceOpen and the run
+    limit are RunDyn's three stores; the other three (kill switch, Fallback.Disabled, fallback limit) leave `s.r` alone -/
+def ex_stage : Nat → Nat
+  | 0 => 0
+  | 1 => 1
+  | 2 => 2
+  | 3 => 2
+  | _ => 3
+
+def ex_pl : Exec.Local → RunDyn.Local
+  | .call l _ _ => .call l
+  | .op cfg k => .op cfg.fo cfg.fc cfg.limit (ex_stage k)
+
+/-- an operator's step: one store; the gauges, the events and the ghost list of direct calls are not touched -/
+theorem ex_step_op (i : Nat) (s : Exec.Shared) (cfg : OpCfg) (k : Nat) (s' : Exec.Shared) (l' : Exec.Local)
+    (h : Exec.step i s (.op cfg k) = some (s', l')) :
+    k < 6 ∧ l' = .op cfg (k + 1) ∧ s'.fbGauge = s.fbGauge ∧ s'.fbEvents = s.fbEvents ∧ s'.direct = s.direct ∧
+      (s'.disabled = s.disabled ∨ s'.disabled = cfg.dis) ∧ (s'.fbDisabled = s.fbDisabled ∨ s'.fbDisabled = cfg.fbDis) ∧
+      (s'.fbLimit = s.fbLimit ∨ s'.fbLimit = cfg.fbLimit) ∧
+      (RunDyn.step i s.r (ex_pl (.op cfg k)) = some (s'.r, ex_pl (.op cfg (k + 1))) ∨
+        (s'.r = s.r ∧ ex_pl (.op cfg (k + 1)) = ex_pl (.op cfg k))) := by
   match k, h with
   | 0, h =>
-    simp only [Exec.step, RunDyn.step, Option.bind_some, Option.some.injEq, Prod.mk.injEq] at h
+    simp only [Exec.step, Option.some.injEq, Prod.mk.injEq] at h
     obtain ⟨rfl, rfl⟩ := h
-    exact ⟨_, _, rfl, rfl, rfl⟩
+    exact ⟨by decide, rfl, rfl, rfl, rfl, Or.inl rfl, Or.inl rfl, Or.inl rfl, Or.inl rfl⟩
   | 1, h =>
-    simp only [Exec.step, RunDyn.step, Option.bind_some, Option.some.injEq, Prod.mk.injEq] at h
+    simp only [Exec.step, Option.some.injEq, Prod.mk.injEq] at h
     obtain ⟨rfl, rfl⟩ := h
-    exact ⟨_, _, rfl, rfl, rfl⟩
+    exact ⟨by decide, rfl, rfl, rfl, rfl, Or.inl rfl, Or.inl rfl, Or.inl rfl, Or.inl rfl⟩
   | 2, h =>
-    simp only [Exec.step, RunDyn.step, Option.bind_some, Option.some.injEq, Prod.mk.injEq] at h
+    simp only [Exec.step, Option.some.injEq, Prod.mk.injEq] at h
     obtain ⟨rfl, rfl⟩ := h
-    exact ⟨_, _, rfl, rfl, rfl⟩
-  | (_ + 3), h => simp [Exec.step, RunDyn.step] at h
+    exact ⟨by decide, rfl, rfl, rfl, rfl, Or.inr rfl, Or.inl rfl, Or.inl rfl, Or.inr ⟨rfl, rfl⟩⟩
+  | 3, h =>
+    simp only [Exec.step, Option.some.injEq, Prod.mk.injEq] at h
+    obtain ⟨rfl, rfl⟩ := h
+    exact ⟨by decide, rfl, rfl, rfl, rfl, Or.inl rfl, Or.inl rfl, Or.inl rfl, Or.inl rfl⟩
+  | 4, h =>
+    simp only [Exec.step, Option.some.injEq, Prod.mk.injEq] at h
+    obtain ⟨rfl, rfl⟩ := h
+    exact ⟨by decide, rfl, rfl, rfl, rfl, Or.inl rfl, Or.inr rfl, Or.inl rfl, Or.inr ⟨rfl, rfl⟩⟩
+  | 5, h =>
+    simp only [Exec.step, Option.some.injEq, Prod.mk.injEq] at h
+    obtain ⟨rfl, rfl⟩ := h
+    exact ⟨by decide, rfl, rfl, rfl, rfl, Or.inl rfl, Or.inl rfl, Or.inr rfl, Or.inr ⟨rfl, rfl⟩⟩
+  | (_ + 6), h => simp [Exec.step] at h
 
-theorem ex_step_op_isSome (i : Nat) (s : Exec.Shared) (fo fc : Bool) (m : Int) (k : Nat) (hk : k < 3) :
-    (Exec.step i s (.op fo fc m k)).isSome = true := by
+theorem ex_step_op_isSome (i : Nat) (s : Exec.Shared) (cfg : OpCfg) (k : Nat) (hk : k < 6) :
+    (Exec.step i s (.op cfg k)).isSome = true := by
   match k, hk with
-  | 0, _ => simp [Exec.step, RunDyn.step]
-  | 1, _ => simp [Exec.step, RunDyn.step]
-  | 2, _ => simp [Exec.step, RunDyn.step]
+  | 0, _ | 1, _ | 2, _ | 3, _ | 4, _ | 5, _ => simp [Exec.step]
 
 /-- a call still inside `c.run` / OpenCircuit / CloseCircuit: a `Run.step`, or the hand-over to Execute's decision -/
 theorem ex_step_running (i : Nat) (s : Exec.Shared) (l : Run.Local) (fb : FbScript) (s' : Exec.Shared) (l' : Exec.Local)
@@ -214,10 +246,6 @@ theorem ex_step_fb_isSome (i : Nat) (s : Exec.Shared) (l : Run.Local) (fb : FbSc
 
 /-! ### the Conc/RunDyn view -/
 
-def ex_pl : Exec.Local → RunDyn.Local
-  | .call l _ _ => .call l
-  | .op a b c d => .op a b c d
-
 def ex_proj (c : Config Exec.Shared Exec.Local) : Config Run.Shared RunDyn.Local :=
   { shared := c.shared.r, locals := c.locals.map ex_pl }
 
@@ -225,7 +253,7 @@ def ex_pj : Exec.Job → RunDyn.Job
   | .exec sc _ => .run (.call sc)
   | .open => .run .open
   | .close => .run .close
-  | .reconfigure a b k => .reconfigure a b k
+  | .reconfigure cfg => .reconfigure cfg.fo cfg.fc cfg.limit
 
 theorem ex_proj_init (fo fc io : Bool) (m fm : Int) (fd : Bool) (jobs : List Exec.Job) (dis : Bool) :
     ex_proj (Exec.init fo fc io m fm fd jobs dis) = RunDyn.init fo fc io m (jobs.map ex_pj) := by
@@ -240,9 +268,9 @@ theorem ex_proj_step (i : Nat) (s : Exec.Shared) (l : Exec.Local) (s' : Exec.Sha
     (h : Exec.step i s l = some (s', l')) :
     RunDyn.step i s.r (ex_pl l) = some (s'.r, ex_pl l') ∨ (s'.r = s.r ∧ ex_pl l' = ex_pl l) := by
   cases l with
-  | op fo fc m k =>
-    obtain ⟨sr, k', h1, rfl, rfl⟩ := ex_step_op i s fo fc m k s' l' h
-    exact Or.inl h1
+  | op cfg k =>
+    obtain ⟨_, rfl, _, _, _, _, _, _, h1⟩ := ex_step_op i s cfg k s' l' h
+    exact h1
   | call l fb pc =>
     by_cases hpc : pc = .running
     · subst hpc
@@ -334,37 +362,57 @@ theorem ex_fbInvokedCount (c : Config Exec.Shared Exec.Local) (i : Nat) :
     by_cases h1 : x.1 == i <;> by_cases h2 : x.2 == FbEv.invoked <;> simp_all
 
 /-- the return-value contract (= `contract` of Props/ExecAll) -/
-def ex_contract (sc : Run.Script) (fb : FbScript) (fbDisabled : Bool) (fbLimit : Int) (r : Run.Res) (o : Out) : Prop :=
+def ex_contract (sc : Run.Script) (fb : FbScript) (mayBeDisabled : Bool) (mayBeLimited : Bool) (r : Run.Res) (o : Out) : Prop :=
   match r with
   | .manual => o = .manual
   | .panicked => o = .runPanic
   | _ =>
     if !runFailed sc r then o = .ok
     else if runBad sc r then o = .runErr
-    else if !fb.present || fbDisabled then o = .runErr
-    else (o = .limit ∧ 0 ≤ fbLimit) ∨ (o = .fbPanic ∧ fb.panics = true) ∨
+    else if !fb.present then o = .runErr
+    else (o = .runErr ∧ mayBeDisabled = true) ∨ (o = .limit ∧ mayBeLimited = true) ∨ (o = .fbPanic ∧ fb.panics = true) ∨
          (o = .fbOk ∧ fb.panics = false ∧ fb.fails = false) ∨ (o = .fbErr ∧ fb.panics = false ∧ fb.fails = true)
+
+/-- values a setting can ever have (= the definitions of Props/ExecAll) -/
+def ex_everDisabled (dis : Bool) (jobs : List Exec.Job) : Bool :=
+  dis || jobs.any fun j => match j with | .reconfigure cfg => cfg.dis | _ => false
+def ex_alwaysDisabled (dis : Bool) (jobs : List Exec.Job) : Bool :=
+  dis && jobs.all fun j => match j with | .reconfigure cfg => cfg.dis | _ => true
+def ex_everFbDisabled (fd : Bool) (jobs : List Exec.Job) : Bool :=
+  fd || jobs.any fun j => match j with | .reconfigure cfg => cfg.fbDis | _ => false
+def ex_someFbLimitNonneg (fm : Int) (jobs : List Exec.Job) : Bool :=
+  decide (0 ≤ fm) || jobs.any fun j => match j with | .reconfigure cfg => decide (0 ≤ cfg.fbLimit) | _ => false
+def ex_largestFbLimit (fm : Int) (jobs : List Exec.Job) : Int :=
+  jobs.foldl (fun acc j => match j with | .reconfigure cfg => max acc cfg.fbLimit | _ => acc) fm
+
+theorem ex_ed_job {dis : Bool} {jobs : List Exec.Job} {i : Nat} {cfg : OpCfg} (hj : jobs[i]? = some (.reconfigure cfg))
+    (h : cfg.dis = true) : ex_everDisabled dis jobs = true := by
+  simp only [ex_everDisabled, Bool.or_eq_true, List.any_eq_true]
+  exact Or.inr ⟨_, List.mem_of_getElem? hj, h⟩
+
+theorem ex_efd_job {fd : Bool} {jobs : List Exec.Job} {i : Nat} {cfg : OpCfg} (hj : jobs[i]? = some (.reconfigure cfg))
+    (h : cfg.fbDis = true) : ex_everFbDisabled fd jobs = true := by
+  simp only [ex_everFbDisabled, Bool.or_eq_true, List.any_eq_true]
+  exact Or.inr ⟨_, List.mem_of_getElem? hj, h⟩
+
+theorem ex_sln_job {fm : Int} {jobs : List Exec.Job} {i : Nat} {cfg : OpCfg} (hj : jobs[i]? = some (.reconfigure cfg))
+    (h : 0 ≤ cfg.fbLimit) : ex_someFbLimitNonneg fm jobs = true := by
+  simp only [ex_someFbLimitNonneg, Bool.or_eq_true, List.any_eq_true]
+  exact Or.inr ⟨_, List.mem_of_getElem? hj, by simpa using h⟩
+
+theorem ex_ad_job {dis : Bool} {jobs : List Exec.Job} {i : Nat} {cfg : OpCfg} (hj : jobs[i]? = some (.reconfigure cfg))
+    (h : ex_alwaysDisabled dis jobs = true) : cfg.dis = true := by
+  simp only [ex_alwaysDisabled, Bool.and_eq_true, List.all_eq_true] at h
+  exact h.2 _ (List.mem_of_getElem? hj)
 
 /-- `c.run` handed Execute an error that is not a bad request, and there is a fallback function -/
 def ex_pre (sc : Run.Script) (fb : FbScript) (r : Run.Res) : Prop :=
   r ≠ .manual ∧ r ≠ .panicked ∧ runFailed sc r = true ∧ runBad sc r = false ∧ fb.present = true
 
-theorem ex_contract_fb (sc : Run.Script) (fb : FbScript) (fm : Int) (r : Run.Res) (o : Out) (hp : ex_pre sc fb r)
-    (h : (o = .limit ∧ 0 ≤ fm) ∨ (o = .fbPanic ∧ fb.panics = true) ∨
+theorem ex_contract_fb (sc : Run.Script) (fb : FbScript) (mbd mbl : Bool) (r : Run.Res) (o : Out) (hp : ex_pre sc fb r)
+    (h : (o = .runErr ∧ mbd = true) ∨ (o = .limit ∧ mbl = true) ∨ (o = .fbPanic ∧ fb.panics = true) ∨
          (o = .fbOk ∧ fb.panics = false ∧ fb.fails = false) ∨ (o = .fbErr ∧ fb.panics = false ∧ fb.fails = true)) :
-    ex_contract sc fb false fm r o := by
-  obtain ⟨h1, h2, h3, h4, h5⟩ := hp
-  cases r <;> simp_all [ex_contract]
-
-theorem ex_contract_fb_inv (sc : Run.Script) (fb : FbScript) (fm : Int) (r : Run.Res) (o : Out) (hp : ex_pre sc fb r)
-    (h : ex_contract sc fb false fm r o) :
-    (o = .limit ∧ 0 ≤ fm) ∨ (o = .fbPanic ∧ fb.panics = true) ∨
-         (o = .fbOk ∧ fb.panics = false ∧ fb.fails = false) ∨ (o = .fbErr ∧ fb.panics = false ∧ fb.fails = true) := by
-  obtain ⟨h1, h2, h3, h4, h5⟩ := hp
-  cases r <;> simp_all [ex_contract]
-
-theorem ex_contract_disabled (sc : Run.Script) (fb : FbScript) (fm : Int) (r : Run.Res) (hp : ex_pre sc fb r) :
-    ex_contract sc fb true fm r .runErr := by
+    ex_contract sc fb mbd mbl r o := by
   obtain ⟨h1, h2, h3, h4, h5⟩ := hp
   cases r <;> simp_all [ex_contract]
 
@@ -401,26 +449,26 @@ theorem ex_passOut_ne_limit (sc : Run.Script) : Out.limit ≠ ex_passOut sc := b
 def ex_man (job : Run.Job) : Prop := ∀ sc, job ≠ .call sc
 
 /-- what a call thread's own fallback events (`evs`) and direct calls (`dc`) are and what it knows, by program counter
-    (`lpc` = the Run thread's); with the kill switch on (`dis`) only OpenCircuit / CloseCircuit threads get past the gate -/
-def ex_ok (job : Run.Job) (fb : FbScript) (fd : Bool) (fm : Int) (dis : Bool) (lpc : Run.Pc) :
-    Exec.Pc → List FbEv → Nat → Prop
+    (`lpc` = the Run thread's).  The settings are live, so what a thread knows is in terms of what the settings can EVER be:
+    `ED` the kill switch was ever on, `AD` it is always on (then only OpenCircuit / CloseCircuit threads get past the gate),
+    `EFD` fallbacks were ever disabled, `SLN` some fallback limit ever in force was ≥ 0 -/
+def ex_ok (job : Run.Job) (fb : FbScript) (ED AD EFD SLN : Bool) (lpc : Run.Pc) : Exec.Pc → List FbEv → Nat → Prop
   | .gate, evs, dc => evs = [] ∧ dc = 0 ∧ lpc = .aFO
-  | .passthru, evs, dc => evs = [] ∧ dc = 0 ∧ lpc = .aFO ∧ dis = true
-  | .running, evs, dc => evs = [] ∧ dc = 0 ∧ (dis = true → ex_man job)
-  | .decide r, evs, dc => evs = [] ∧ dc = 0 ∧ lpc = .done r ∧ (dis = true → r = .manual ∧ ex_man job)
-  | .loadDisabled, evs, dc => evs = [] ∧ dc = 0 ∧ dis = false ∧ ∃ r, lpc = .done r ∧ ex_pre (ex_sc job) fb r
-  | .fbAdd, evs, dc | .fbLoadLimit _, evs, dc | .fbInvoke, evs, dc =>
-    evs = [] ∧ dc = 0 ∧ dis = false ∧ fd = false ∧ ∃ r, lpc = .done r ∧ ex_pre (ex_sc job) fb r
+  | .passthru, evs, dc => evs = [] ∧ dc = 0 ∧ lpc = .aFO ∧ ED = true
+  | .running, evs, dc => evs = [] ∧ dc = 0 ∧ (AD = true → ex_man job)
+  | .decide r, evs, dc => evs = [] ∧ dc = 0 ∧ lpc = .done r ∧ (AD = true → r = .manual ∧ ex_man job)
+  | .loadDisabled, evs, dc | .fbAdd, evs, dc | .fbLoadLimit _, evs, dc | .fbInvoke, evs, dc =>
+    evs = [] ∧ dc = 0 ∧ AD = false ∧ ∃ r, lpc = .done r ∧ ex_pre (ex_sc job) fb r
   | .fbDeliverReject, evs, dc =>
-    evs = [] ∧ dc = 0 ∧ dis = false ∧ fd = false ∧ 0 ≤ fm ∧ ∃ r, lpc = .done r ∧ ex_pre (ex_sc job) fb r
+    evs = [] ∧ dc = 0 ∧ AD = false ∧ SLN = true ∧ ∃ r, lpc = .done r ∧ ex_pre (ex_sc job) fb r
   | .fbDeliver ok, evs, dc =>
-    evs = [.invoked] ∧ dc = 0 ∧ dis = false ∧ fd = false ∧ ok = !fb.fails ∧ fb.panics = false ∧
+    evs = [.invoked] ∧ dc = 0 ∧ AD = false ∧ ok = !fb.fails ∧ fb.panics = false ∧
       ∃ r, lpc = .done r ∧ ex_pre (ex_sc job) fb r
   | .fbDec o, evs, dc =>
-    evs = ex_outEvs o ∧ dc = 0 ∧ dis = false ∧ ∃ r, lpc = .done r ∧ ex_contract (ex_sc job) fb fd fm r o
+    evs = ex_outEvs o ∧ dc = 0 ∧ AD = false ∧ ∃ r, lpc = .done r ∧ ex_contract (ex_sc job) fb EFD SLN r o
   | .done o, evs, dc =>
-    (evs = ex_outEvs o ∧ dc = 0 ∧ (dis = true → ex_man job) ∧ ∃ r, lpc = .done r ∧ ex_contract (ex_sc job) fb fd fm r o) ∨
-    (dis = true ∧ lpc = .aFO ∧ evs = [] ∧ dc = 1 ∧ o = ex_passOut (ex_sc job))
+    (evs = ex_outEvs o ∧ dc = 0 ∧ (AD = true → ex_man job) ∧ ∃ r, lpc = .done r ∧ ex_contract (ex_sc job) fb EFD SLN r o) ∨
+    (ED = true ∧ lpc = .aFO ∧ evs = [] ∧ dc = 1 ∧ o = ex_passOut (ex_sc job))
 
 theorem ex_FbStep_frame (i : Nat) (s : Exec.Shared) (sc : Run.Script) (fb : FbScript) (pc : Exec.Pc) (s' : Exec.Shared)
     (pc' : Exec.Pc) (h : ex_FbStep i s sc fb pc s' pc') :
@@ -432,13 +480,20 @@ theorem ex_FbStep_frame (i : Nat) (s : Exec.Shared) (sc : Run.Script) (fb : FbSc
       | exact ⟨ex_fevs_append_other j i _ _ hj, rfl⟩
       | exact ⟨rfl, ex_dc_append_other j i _ hj⟩
 
-theorem ex_FbStep_self (i : Nat) (s : Exec.Shared) (job : Run.Job) (fb : FbScript) (pc : Exec.Pc) (s' : Exec.Shared)
-    (pc' : Exec.Pc) (lpc : Run.Pc) (h : ex_FbStep i s (ex_sc job) fb pc s' pc')
-    (hok : ex_ok job fb s.fbDisabled s.fbLimit s.disabled lpc pc (ex_fevs i s.fbEvents) (ex_dc i s.direct)) :
-    ex_ok job fb s.fbDisabled s.fbLimit s.disabled lpc pc' (ex_fevs i s'.fbEvents) (ex_dc i s'.direct) := by
+theorem ex_FbStep_self (i : Nat) (s : Exec.Shared) (job : Run.Job) (fb : FbScript) (ED AD EFD SLN : Bool) (pc : Exec.Pc)
+    (s' : Exec.Shared) (pc' : Exec.Pc) (lpc : Run.Pc) (h : ex_FbStep i s (ex_sc job) fb pc s' pc')
+    (sd : s.disabled = true → ED = true) (ad : AD = true → s.disabled = true)
+    (sfd : s.fbDisabled = true → EFD = true) (sfl : 0 ≤ s.fbLimit → SLN = true)
+    (hok : ex_ok job fb ED AD EFD SLN lpc pc (ex_fevs i s.fbEvents) (ex_dc i s.direct)) :
+    ex_ok job fb ED AD EFD SLN lpc pc' (ex_fevs i s'.fbEvents) (ex_dc i s'.direct) := by
+  have hAD : ∀ r : Run.Res, r ≠ .manual → (AD = true → r = .manual ∧ ex_man job) → AD = false := by
+    intro r hr h
+    cases hA : AD with
+    | false => rfl
+    | true => exact absurd (h hA).1 hr
   cases h with
-  | gateOn hd => exact ⟨hok.1, hok.2.1, hok.2.2, hd⟩
-  | gateOff hd => exact ⟨hok.1, hok.2.1, fun e => by rw [hd] at e; cases e⟩
+  | gateOn hd => exact ⟨hok.1, hok.2.1, hok.2.2, sd hd⟩
+  | gateOff hd => exact ⟨hok.1, hok.2.1, fun e => by rw [ad e] at hd; cases hd⟩
   | pass =>
     obtain ⟨he, hdc, hl, hd⟩ := hok
     exact Or.inr ⟨hd, hl, he, by rw [ex_dc_append_self, hdc], rfl⟩
@@ -462,40 +517,37 @@ theorem ex_FbStep_self (i : Nat) (s : Exec.Shared) (job : Run.Job) (fb : FbScrip
     cases r <;> simp_all [ex_contract]
   | decFb r h1 h2 h3 h4 h5 =>
     obtain ⟨he, hdc, hl, hd⟩ := hok
-    refine ⟨he, hdc, ?_, _, hl, h1, h2, h3, h4, h5⟩
-    cases hs : s.disabled with
-    | false => rfl
-    | true => exact absurd (hd hs).1 h1
+    exact ⟨he, hdc, hAD r h1 hd, _, hl, h1, h2, h3, h4, h5⟩
   | disabled hd =>
-    obtain ⟨he, hdc, hds, r, hr, hp⟩ := hok
-    refine Or.inl ⟨by rw [he]; rfl, hdc, (fun e => by rw [hds] at e; cases e), r, hr, ?_⟩
-    rw [hd]; exact ex_contract_disabled _ fb _ r hp
-  | enabled hd => exact ⟨hok.1, hok.2.1, hok.2.2.1, hd, hok.2.2.2⟩
+    obtain ⟨he, hdc, hA, r, hr, hp⟩ := hok
+    refine Or.inl ⟨by rw [he]; rfl, hdc, (fun e => by rw [hA] at e; cases e), r, hr, ?_⟩
+    exact ex_contract_fb _ fb _ _ r _ hp (Or.inl ⟨rfl, sfd hd⟩)
+  | enabled hd => exact hok
   | add => exact hok
-  | refuse obs hlim => exact ⟨hok.1, hok.2.1, hok.2.2.1, hok.2.2.2.1, hlim.1, hok.2.2.2.2⟩
+  | refuse obs hlim => exact ⟨hok.1, hok.2.1, hok.2.2.1, sfl hlim.1, hok.2.2.2⟩
   | grant obs hlim => exact hok
   | reject =>
-    obtain ⟨he, hdc, hds, hd, hm, r, hr, hp⟩ := hok
-    refine ⟨by simp only [ex_fevs_append_self, he]; rfl, hdc, hds, r, hr, ?_⟩
-    rw [hd]; exact ex_contract_fb _ fb _ r _ hp (Or.inl ⟨rfl, hm⟩)
+    obtain ⟨he, hdc, hA, hm, r, hr, hp⟩ := hok
+    refine ⟨by simp only [ex_fevs_append_self, he]; rfl, hdc, hA, r, hr, ?_⟩
+    exact ex_contract_fb _ fb _ _ r _ hp (Or.inr (Or.inl ⟨rfl, hm⟩))
   | invokePanic hpn =>
-    obtain ⟨he, hdc, hds, hd, r, hr, hp⟩ := hok
-    refine ⟨by simp only [ex_fevs_append_self, he]; rfl, hdc, hds, r, hr, ?_⟩
-    rw [hd]; exact ex_contract_fb _ fb _ r _ hp (Or.inr (Or.inl ⟨rfl, hpn⟩))
+    obtain ⟨he, hdc, hA, r, hr, hp⟩ := hok
+    refine ⟨by simp only [ex_fevs_append_self, he]; rfl, hdc, hA, r, hr, ?_⟩
+    exact ex_contract_fb _ fb _ _ r _ hp (Or.inr (Or.inr (Or.inl ⟨rfl, hpn⟩)))
   | invokeRet hpn =>
-    obtain ⟨he, hdc, hds, hd, r, hr, hp⟩ := hok
-    exact ⟨by simp only [ex_fevs_append_self, he]; rfl, hdc, hds, hd, rfl, hpn, r, hr, hp⟩
+    obtain ⟨he, hdc, hA, r, hr, hp⟩ := hok
+    exact ⟨by simp only [ex_fevs_append_self, he]; rfl, hdc, hA, rfl, hpn, r, hr, hp⟩
   | deliverOk =>
-    obtain ⟨he, hdc, hds, hd, hf, hpn, r, hr, hp⟩ := hok
-    refine ⟨by simp only [ex_fevs_append_self, he]; rfl, hdc, hds, r, hr, ?_⟩
-    rw [hd]; exact ex_contract_fb _ fb _ r _ hp (Or.inr (Or.inr (Or.inl ⟨rfl, hpn, by simpa using hf⟩)))
+    obtain ⟨he, hdc, hA, hf, hpn, r, hr, hp⟩ := hok
+    refine ⟨by simp only [ex_fevs_append_self, he]; rfl, hdc, hA, r, hr, ?_⟩
+    exact ex_contract_fb _ fb _ _ r _ hp (Or.inr (Or.inr (Or.inr (Or.inl ⟨rfl, hpn, by simpa using hf⟩))))
   | deliverErr =>
-    obtain ⟨he, hdc, hds, hd, hf, hpn, r, hr, hp⟩ := hok
-    refine ⟨by simp only [ex_fevs_append_self, he]; rfl, hdc, hds, r, hr, ?_⟩
-    rw [hd]; exact ex_contract_fb _ fb _ r _ hp (Or.inr (Or.inr (Or.inr ⟨rfl, hpn, by simpa using hf⟩)))
+    obtain ⟨he, hdc, hA, hf, hpn, r, hr, hp⟩ := hok
+    refine ⟨by simp only [ex_fevs_append_self, he]; rfl, hdc, hA, r, hr, ?_⟩
+    exact ex_contract_fb _ fb _ _ r _ hp (Or.inr (Or.inr (Or.inr (Or.inr ⟨rfl, hpn, by simpa using hf⟩))))
   | dec o =>
-    obtain ⟨he, hdc, hds, hc⟩ := hok
-    exact Or.inl ⟨he, hdc, (fun e => by rw [hds] at e; cases e), hc⟩
+    obtain ⟨he, hdc, hA, hc⟩ := hok
+    exact Or.inl ⟨he, hdc, (fun e => by rw [hA] at e; cases e), hc⟩
 
 def ex_jobOf : Exec.Job → Option (Run.Job × FbScript)
   | .exec sc fb => some (.call sc, fb)
@@ -503,27 +555,45 @@ def ex_jobOf : Exec.Job → Option (Run.Job × FbScript)
   | .close => some (.close, {})
   | .reconfigure .. => none
 
-def ex_okL (jobs : List Exec.Job) (fd : Bool) (fm : Int) (dis : Bool) (i : Nat) (evs : List FbEv) (dc : Nat) :
+def ex_okL (jobs : List Exec.Job) (ED AD EFD SLN : Bool) (i : Nat) (evs : List FbEv) (dc : Nat) :
     Option Exec.Local → Prop
-  | some (.call l fb pc) => (jobs[i]?).bind ex_jobOf = some (l.job, fb) ∧ ex_ok l.job fb fd fm dis l.pc pc evs dc
-  | some (.op ..) => evs = [] ∧ dc = 0
+  | some (.call l fb pc) => (jobs[i]?).bind ex_jobOf = some (l.job, fb) ∧ ex_ok l.job fb ED AD EFD SLN l.pc pc evs dc
+  | some (.op cfg _) => jobs[i]? = some (.reconfigure cfg) ∧ evs = [] ∧ dc = 0
   | none => evs = [] ∧ dc = 0
 
-structure ex_FInv (jobs : List Exec.Job) (fd : Bool) (fm : Int) (dis : Bool) (c : Config Exec.Shared Exec.Local) : Prop where
-  lim : c.shared.fbLimit = fm
-  fdis : c.shared.fbDisabled = fd
-  kill : c.shared.disabled = dis
-  ok : ∀ i, ex_okL jobs fd fm dis i (ex_fevs i c.shared.fbEvents) (ex_dc i c.shared.direct) c.locals[i]?
+/-- each live setting has the initial value or one an operator of the job list installs -/
+structure ex_SInv (jobs : List Exec.Job) (dis fd : Bool) (fm : Int) (s : Exec.Shared) : Prop where
+  sd : s.disabled = true → ex_everDisabled dis jobs = true
+  ad : ex_alwaysDisabled dis jobs = true → s.disabled = true
+  sfd : s.fbDisabled = true → ex_everFbDisabled fd jobs = true
+  sfl : 0 ≤ s.fbLimit → ex_someFbLimitNonneg fm jobs = true
+
+structure ex_FInv (jobs : List Exec.Job) (dis fd : Bool) (fm : Int) (c : Config Exec.Shared Exec.Local) : Prop where
+  S : ex_SInv jobs dis fd fm c.shared
+  ok : ∀ i, ex_okL jobs (ex_everDisabled dis jobs) (ex_alwaysDisabled dis jobs) (ex_everFbDisabled fd jobs)
+    (ex_someFbLimitNonneg fm jobs) i (ex_fevs i c.shared.fbEvents) (ex_dc i c.shared.direct) c.locals[i]?
 
 theorem ex_FInv_init (fo fc io : Bool) (m fm : Int) (fd : Bool) (jobs : List Exec.Job) (dis : Bool) :
-    ex_FInv jobs fd fm dis (Exec.init fo fc io m fm fd jobs dis) := by
-  refine ⟨rfl, rfl, rfl, ?_⟩
-  intro i
-  simp only [Exec.init, List.getElem?_map]
-  cases hj : jobs[i]? with
-  | none => simp [ex_okL, ex_fevs, ex_dc]
-  | some j =>
-    cases j <;> simp [Exec.startLocal, ex_okL, ex_jobOf, ex_ok, ex_fevs, ex_dc, hj, Run.startPc, ex_man]
+    ex_FInv jobs dis fd fm (Exec.init fo fc io m fm fd jobs dis) := by
+  refine ⟨⟨?_, ?_, ?_, ?_⟩, ?_⟩
+  · intro h
+    simp only [Exec.init] at h
+    simp [ex_everDisabled, h]
+  · intro h
+    simp only [ex_alwaysDisabled, Bool.and_eq_true] at h
+    exact h.1
+  · intro h
+    simp only [Exec.init] at h
+    simp [ex_everFbDisabled, h]
+  · intro h
+    simp only [Exec.init] at h
+    simp [ex_someFbLimitNonneg, h]
+  · intro i
+    simp only [Exec.init, List.getElem?_map]
+    cases hj : jobs[i]? with
+    | none => simp [ex_okL, ex_fevs, ex_dc]
+    | some j =>
+      cases j <;> simp [Exec.startLocal, ex_okL, ex_jobOf, ex_ok, ex_fevs, ex_dc, hj, Run.startPc, ex_man]
 
 /-- an OpenCircuit / CloseCircuit thread's `c.run` ends as `manual` -/
 theorem ex_man_done (jobs : List RunDyn.Job) (c : Config Exec.Shared Exec.Local) (E : rd_EInv jobs (ex_proj c)) (i : Nat)
@@ -539,19 +609,20 @@ theorem ex_man_done (jobs : List RunDyn.Job) (c : Config Exec.Shared Exec.Local)
   | «open» => exact hok.2
   | close => exact hok.2
 
-theorem ex_FInv_step (jobs : List Exec.Job) (fd : Bool) (fm : Int) (dis : Bool) (c : Config Exec.Shared Exec.Local) (i : Nat)
+theorem ex_FInv_step (jobs : List Exec.Job) (dis fd : Bool) (fm : Int) (c : Config Exec.Shared Exec.Local) (i : Nat)
     (l : Exec.Local) (s' : Exec.Shared) (l' : Exec.Local) (jobs' : List RunDyn.Job) (E : rd_EInv jobs' (ex_proj c))
-    (I : ex_FInv jobs fd fm dis c) (hl : c.locals[i]? = some l)
-    (hs : Exec.step i c.shared l = some (s', l')) : ex_FInv jobs fd fm dis { shared := s', locals := c.locals.set i l' } := by
+    (I : ex_FInv jobs dis fd fm c) (hl : c.locals[i]? = some l)
+    (hs : Exec.step i c.shared l = some (s', l')) : ex_FInv jobs dis fd fm { shared := s', locals := c.locals.set i l' } := by
   have hilt := Call.ccall_lt_of_getElem? hl
   have hi := I.ok i
   rw [hl] at hi
-  -- the frame: the settings are static, other threads' events untouched; what remains is the stepping thread
-  suffices h : s'.fbLimit = c.shared.fbLimit ∧ s'.fbDisabled = c.shared.fbDisabled ∧ s'.disabled = c.shared.disabled ∧
+  -- the frame: other threads' events untouched; what remains is the settings and the stepping thread
+  suffices h : ex_SInv jobs dis fd fm s' ∧
       (∀ j, i ≠ j → ex_fevs j s'.fbEvents = ex_fevs j c.shared.fbEvents ∧ ex_dc j s'.direct = ex_dc j c.shared.direct) ∧
-      ex_okL jobs fd fm dis i (ex_fevs i s'.fbEvents) (ex_dc i s'.direct) (some l') by
-    obtain ⟨h1, h2, h0, h3, h4⟩ := h
-    refine ⟨h1.trans I.lim, h2.trans I.fdis, h0.trans I.kill, ?_⟩
+      ex_okL jobs (ex_everDisabled dis jobs) (ex_alwaysDisabled dis jobs) (ex_everFbDisabled fd jobs)
+        (ex_someFbLimitNonneg fm jobs) i (ex_fevs i s'.fbEvents) (ex_dc i s'.direct) (some l') by
+    obtain ⟨h1, h3, h4⟩ := h
+    refine ⟨h1, ?_⟩
     intro j
     by_cases hij : i = j
     · subst hij
@@ -560,48 +631,65 @@ theorem ex_FInv_step (jobs : List Exec.Job) (fd : Bool) (fm : Int) (dis : Bool) 
     · simp only [List.getElem?_set_ne hij, (h3 j hij).1, (h3 j hij).2]
       exact I.ok j
   cases l with
-  | op fo fc m k =>
-    obtain ⟨sr, k', _, rfl, rfl⟩ := ex_step_op i _ fo fc m k s' l' hs
-    exact ⟨rfl, rfl, rfl, fun _ _ => ⟨rfl, rfl⟩, hi⟩
+  | op cfg k =>
+    obtain ⟨_, rfl, _, he, hd, h1, h2, h3, _⟩ := ex_step_op i _ cfg k s' l' hs
+    have hj := hi.1
+    refine ⟨⟨?_, ?_, ?_, ?_⟩, fun _ _ => by rw [he, hd]; exact ⟨rfl, rfl⟩, by rw [he, hd]; exact hi⟩
+    · intro h
+      rcases h1 with h1 | h1
+      · exact I.S.sd (h1 ▸ h)
+      · exact ex_ed_job hj (h1 ▸ h)
+    · intro h
+      rcases h1 with h1 | h1
+      · rw [h1]; exact I.S.ad h
+      · rw [h1]; exact ex_ad_job hj h
+    · intro h
+      rcases h2 with h2 | h2
+      · exact I.S.sfd (h2 ▸ h)
+      · exact ex_efd_job hj (h2 ▸ h)
+    · intro h
+      rcases h3 with h3 | h3
+      · exact I.S.sfl (h3 ▸ h)
+      · exact ex_sln_job hj (h3 ▸ h)
   | call l fb pc =>
     by_cases hpc : pc = .running
     · subst hpc
       rcases ex_step_running i _ l fb s' l' hs with ⟨r, hr, rfl, rfl⟩ | ⟨sr, m, h1, rfl, rfl⟩
-      · refine ⟨rfl, rfl, rfl, fun _ _ => ⟨rfl, rfl⟩, hi.1, hi.2.1, hi.2.2.1, hr, ?_⟩
+      · refine ⟨I.S, fun _ _ => ⟨rfl, rfl⟩, hi.1, hi.2.1, hi.2.2.1, hr, ?_⟩
         intro hd
         have hm := hi.2.2.2 hd
         refine ⟨?_, hm⟩
         rcases ex_man_done jobs' c E i l fb _ hl hm with h | ⟨tl, h⟩ <;> rw [hr] at h <;> cases h
         rfl
       · have hjob := (re_step_events i _ _ _ _ h1).1
-        refine ⟨rfl, rfl, rfl, fun _ _ => ⟨rfl, rfl⟩, ?_, ?_⟩
+        refine ⟨⟨I.S.sd, I.S.ad, I.S.sfd, I.S.sfl⟩, fun _ _ => ⟨rfl, rfl⟩, ?_, ?_⟩
         · rw [hjob]; exact hi.1
         · rw [hjob]; exact hi.2
     · obtain ⟨pc', rfl, hst⟩ := ex_step_fb i _ l fb pc s' l' hpc hs
       obtain ⟨_, f1, f2, f0, f3⟩ := ex_FbStep_frame i _ _ fb pc s' pc' hst
-      refine ⟨f1, f2, f0, f3, hi.1, ?_⟩
-      have := ex_FbStep_self i _ l.job fb pc s' pc' l.pc hst (by rw [I.lim, I.fdis, I.kill]; exact hi.2)
-      rw [I.lim, I.fdis, I.kill] at this
-      exact this
+      refine ⟨⟨by rw [f0]; exact I.S.sd, by rw [f0]; exact I.S.ad, by rw [f2]; exact I.S.sfd, by rw [f1]; exact I.S.sfl⟩,
+        f3, hi.1, ?_⟩
+      exact ex_FbStep_self i _ l.job fb _ _ _ _ pc s' pc' l.pc hst I.S.sd I.S.ad I.S.sfd I.S.sfl hi.2
 
 /-- the two invariants together (the fallback-phase one leans on the run events: an OpenCircuit ends as `manual`) -/
-structure ex_Inv (jobs : List Exec.Job) (fd : Bool) (fm : Int) (dis : Bool) (c : Config Exec.Shared Exec.Local) : Prop where
+structure ex_Inv (jobs : List Exec.Job) (dis fd : Bool) (fm : Int) (c : Config Exec.Shared Exec.Local) : Prop where
   E : rd_EInv (jobs.map ex_pj) (ex_proj c)
-  F : ex_FInv jobs fd fm dis c
+  F : ex_FInv jobs dis fd fm c
 
 theorem ex_Inv_run (fo fc io : Bool) (m fm : Int) (fd : Bool) (jobs : List Exec.Job) (dis : Bool) (sched : List Nat) :
-    ex_Inv jobs fd fm dis (run Exec.sys (Exec.init fo fc io m fm fd jobs dis) sched) :=
-  CM.Props.C04.inv_all_schedules Exec.sys (ex_Inv jobs fd fm dis)
+    ex_Inv jobs dis fd fm (run Exec.sys (Exec.init fo fc io m fm fd jobs dis) sched) :=
+  CM.Props.C04.inv_all_schedules Exec.sys (ex_Inv jobs dis fd fm)
     (fun c i l s' l' hc hl hs =>
       ⟨ex_lift (rd_EInv (jobs.map ex_pj)) (fun c i l s' l' hc hl hs => rd_EInv_step _ c i l s' l' hc hl hs) c i l s' l' hc.E hl hs,
-       ex_FInv_step jobs fd fm dis c i l s' l' _ hc.E hc.F hl hs⟩) sched _
+       ex_FInv_step jobs dis fd fm c i l s' l' _ hc.E hc.F hl hs⟩) sched _
     ⟨by rw [ex_proj_init]; exact rd_EInv_init fo fc io m _, ex_FInv_init fo fc io m fm fd jobs dis⟩
 
 theorem ex_FInv_run (fo fc io : Bool) (m fm : Int) (fd : Bool) (jobs : List Exec.Job) (dis : Bool) (sched : List Nat) :
-    ex_FInv jobs fd fm dis (run Exec.sys (Exec.init fo fc io m fm fd jobs dis) sched) :=
+    ex_FInv jobs dis fd fm (run Exec.sys (Exec.init fo fc io m fm fd jobs dis) sched) :=
   (ex_Inv_run fo fc io m fm fd jobs dis sched).F
 
-/-! ### the fallback bulkhead: Lemmas/Conc's `GInv`, the ghost region existentially bound -/
+/-! ### the fallback bulkhead: Lemmas/Conc's `GInv`, the ghost region existentially bound, read at a limit `L` that every
+    limit in force stays below (or at a negative `L` = unlimited: then it is a pure counting invariant) -/
 
 def ex_gl : Exec.Pc → Gauge.Local
   | .fbLoadLimit obs => .incd obs
@@ -617,11 +705,11 @@ def ex_glL : Exec.Local → Gauge.Local
   | .call _ _ pc => ex_gl pc
   | .op .. => .idle
 
-def ex_BInv (fm : Int) (c : Config Exec.Shared Exec.Local) : Prop :=
-  ∃ region, GInv fm { gauge := c.shared.fbGauge, limit := c.shared.fbLimit, region := region } (c.locals.map ex_glL)
+def ex_BInv (L : Int) (c : Config Exec.Shared Exec.Local) : Prop :=
+  ∃ region, GInv L { gauge := c.shared.fbGauge, limit := L, region := region } (c.locals.map ex_glL)
 
-theorem ex_BInv_init (fo fc io : Bool) (m fm : Int) (fd : Bool) (jobs : List Exec.Job) (dis : Bool) :
-    ex_BInv fm (Exec.init fo fc io m fm fd jobs dis) := by
+theorem ex_BInv_init (L : Int) (fo fc io : Bool) (m fm : Int) (fd : Bool) (jobs : List Exec.Job) (dis : Bool) :
+    ex_BInv L (Exec.init fo fc io m fm fd jobs dis) := by
   refine ⟨[], ?_⟩
   have : (jobs.map Exec.startLocal).map ex_glL = List.replicate jobs.length .idle := by
     induction jobs with
@@ -632,15 +720,18 @@ theorem ex_BInv_init (fo fc io : Bool) (m fm : Int) (fd : Bool) (jobs : List Exe
   simp only [Exec.init, this]
   exact GInv.init _ _
 
-theorem ex_BInv_step (fm : Int) (c : Config Exec.Shared Exec.Local) (i : Nat) (l : Exec.Local) (s' : Exec.Shared)
-    (l' : Exec.Local) (I : ex_BInv fm c) (hl : c.locals[i]? = some l) (hs : Exec.step i c.shared l = some (s', l')) :
-    ex_BInv fm { shared := s', locals := c.locals.set i l' } := by
+/-- `hL`: the limit read at a grant is one `L` covers -/
+theorem ex_BInv_step (L : Int) (c : Config Exec.Shared Exec.Local) (i : Nat) (l : Exec.Local) (s' : Exec.Shared)
+    (l' : Exec.Local) (hL : L < 0 ∨ (0 ≤ c.shared.fbLimit ∧ c.shared.fbLimit ≤ L))
+    (I : ex_BInv L c) (hl : c.locals[i]? = some l) (hs : Exec.step i c.shared l = some (s', l')) :
+    ex_BInv L { shared := s', locals := c.locals.set i l' } := by
   obtain ⟨reg, G⟩ := I
   have hgl : (c.locals.map ex_glL)[i]? = some (ex_glL l) := by simp [List.getElem?_map, hl]
   simp only [ex_BInv, List.map_set]
   cases l with
-  | op fo fc m k =>
-    obtain ⟨sr, k', _, rfl, rfl⟩ := ex_step_op i _ fo fc m k s' l' hs
+  | op cfg k =>
+    obtain ⟨_, rfl, hg, _⟩ := ex_step_op i _ cfg k s' l' hs
+    rw [hg]
     exact ⟨reg, G.local_step hgl rfl rfl (fun e h => h)⟩
   | call l fb pc =>
     by_cases hpc : pc = .running
@@ -656,15 +747,101 @@ theorem ex_BInv_step (fm : Int) (c : Config Exec.Shared Exec.Local) (i : Nat) (l
         exact ⟨reg, G.local_step hgl rfl rfl (fun e h => h)⟩
       | add => exact ⟨_, G.enter_step hgl⟩
       | refuse obs hlim => exact ⟨reg, G.local_step hgl rfl rfl (fun e h => h.2)⟩
-      | grant obs hlim => exact ⟨_, G.grant_step hgl hlim⟩
+      | grant obs hlim => exact ⟨_, G.grant_step hgl (by simp only; omega)⟩
       | dec o =>
         have hr : inRegion (ex_gl (.fbDec o)) = true := by cases o <;> rfl
         exact ⟨_, G.exit_step true hgl hr⟩
 
+/-- the counting reading: no hypothesis on the limits -/
 theorem ex_BInv_run (fo fc io : Bool) (m fm : Int) (fd : Bool) (jobs : List Exec.Job) (dis : Bool) (sched : List Nat) :
-    ex_BInv fm (run Exec.sys (Exec.init fo fc io m fm fd jobs dis) sched) :=
-  CM.Props.C04.inv_all_schedules Exec.sys (ex_BInv fm)
-    (fun c i l s' l' hc hl hs => ex_BInv_step fm c i l s' l' hc hl hs) sched _ (ex_BInv_init fo fc io m fm fd jobs dis)
+    ex_BInv (-1) (run Exec.sys (Exec.init fo fc io m fm fd jobs dis) sched) :=
+  CM.Props.C04.inv_all_schedules Exec.sys (ex_BInv (-1))
+    (fun c i l s' l' hc hl hs => ex_BInv_step (-1) c i l s' l' (Or.inl (by decide)) hc hl hs) sched _
+    (ex_BInv_init (-1) fo fc io m fm fd jobs dis)
+
+theorem ex_largest_ge (fm : Int) (jobs : List Exec.Job) : fm ≤ ex_largestFbLimit fm jobs := by
+  induction jobs generalizing fm with
+  | nil => exact Int.le_refl fm
+  | cons j r ih =>
+    simp only [ex_largestFbLimit, List.foldl_cons]
+    cases j with
+    | reconfigure cfg => exact Int.le_trans (Int.le_max_left fm cfg.fbLimit) (ih (max fm cfg.fbLimit))
+    | _ => exact ih fm
+
+theorem ex_largest_mem (fm : Int) (jobs : List Exec.Job) (cfg : OpCfg) (h : Exec.Job.reconfigure cfg ∈ jobs) :
+    cfg.fbLimit ≤ ex_largestFbLimit fm jobs := by
+  induction jobs generalizing fm with
+  | nil => simp at h
+  | cons j r ih =>
+    simp only [List.mem_cons] at h
+    rcases h with h | h
+    · subst h
+      simp only [ex_largestFbLimit, List.foldl_cons]
+      exact Int.le_trans (Int.le_max_right fm cfg.fbLimit) (ex_largest_ge (max fm cfg.fbLimit) r)
+    · simp only [ex_largestFbLimit, List.foldl_cons]
+      exact ih _ h
+
+/-- the bulkhead read at the largest limit ever in force, none of them negative -/
+structure ex_LInv (L : Int) (c : Config Exec.Shared Exec.Local) : Prop where
+  b : ex_BInv L c
+  lim0 : 0 ≤ c.shared.fbLimit
+  limL : c.shared.fbLimit ≤ L
+  ops : ∀ cfg st, Exec.Local.op cfg st ∈ c.locals → 0 ≤ cfg.fbLimit ∧ cfg.fbLimit ≤ L
+
+theorem ex_LInv_step (L : Int) (c : Config Exec.Shared Exec.Local) (i : Nat) (l : Exec.Local) (s' : Exec.Shared)
+    (l' : Exec.Local) (I : ex_LInv L c) (hl : c.locals[i]? = some l) (hs : Exec.step i c.shared l = some (s', l')) :
+    ex_LInv L { shared := s', locals := c.locals.set i l' } := by
+  have hb := ex_BInv_step L c i l s' l' (Or.inr ⟨I.lim0, I.limL⟩) I.b hl hs
+  cases l with
+  | op cfg k =>
+    have hk := I.ops cfg k (List.mem_of_getElem? hl)
+    obtain ⟨_, rfl, _, _, _, _, _, h3, _⟩ := ex_step_op i _ cfg k s' l' hs
+    refine ⟨hb, ?_, ?_, ?_⟩
+    · rcases h3 with h3 | h3 <;> simp only [h3]
+      · exact I.lim0
+      · exact hk.1
+    · rcases h3 with h3 | h3 <;> simp only [h3]
+      · exact I.limL
+      · exact hk.2
+    · intro cfg' st hmem
+      rcases List.mem_or_eq_of_mem_set hmem with hmem | he
+      · exact I.ops _ _ hmem
+      · cases he; exact hk
+  | call l fb pc =>
+    have hlim : s'.fbLimit = c.shared.fbLimit := by
+      by_cases hpc : pc = .running
+      · subst hpc
+        rcases ex_step_running i _ l fb s' l' hs with ⟨r, hr, rfl, rfl⟩ | ⟨sr, m, h1, rfl, rfl⟩ <;> rfl
+      · obtain ⟨pc', rfl, hst⟩ := ex_step_fb i _ l fb pc s' l' hpc hs
+        exact (ex_FbStep_frame i _ _ fb pc s' pc' hst).2.1
+    have hl' : ∃ m fb' pc', l' = .call m fb' pc' := by
+      by_cases hpc : pc = .running
+      · subst hpc
+        rcases ex_step_running i _ l fb s' l' hs with ⟨r, hr, rfl, rfl⟩ | ⟨sr, m, h1, rfl, rfl⟩ <;> exact ⟨_, _, _, rfl⟩
+      · obtain ⟨pc', rfl, hst⟩ := ex_step_fb i _ l fb pc s' l' hpc hs
+        exact ⟨_, _, _, rfl⟩
+    refine ⟨hb, by simp only [hlim]; exact I.lim0, by simp only [hlim]; exact I.limL, ?_⟩
+    intro cfg' st hmem
+    rcases List.mem_or_eq_of_mem_set hmem with hmem | he
+    · exact I.ops _ _ hmem
+    · obtain ⟨m, fb', pc', e⟩ := hl'
+      rw [e] at he; cases he
+
+theorem ex_LInv_run (fo fc io : Bool) (m fm : Int) (fd : Bool) (jobs : List Exec.Job) (dis : Bool) (sched : List Nat)
+    (hfm : 0 ≤ fm) (hj : ∀ j ∈ jobs, match j with | .reconfigure cfg => 0 ≤ cfg.fbLimit | _ => True) :
+    ex_LInv (ex_largestFbLimit fm jobs) (run Exec.sys (Exec.init fo fc io m fm fd jobs dis) sched) := by
+  refine CM.Props.C04.inv_all_schedules Exec.sys (ex_LInv (ex_largestFbLimit fm jobs))
+    (fun c i l s' l' hc hl hs => ex_LInv_step _ c i l s' l' hc hl hs) sched _ ?_
+  refine ⟨ex_BInv_init _ fo fc io m fm fd jobs dis, hfm, ex_largest_ge fm jobs, ?_⟩
+  intro cfg st hmem
+  simp only [Exec.init, List.mem_map] at hmem
+  obtain ⟨j, hjm, he⟩ := hmem
+  cases j with
+  | reconfigure cfg' =>
+    simp only [Exec.startLocal, Exec.Local.op.injEq] at he
+    obtain ⟨rfl, _⟩ := he
+    exact ⟨hj _ hjm, ex_largest_mem fm jobs _ hjm⟩
+  | _ => simp [Exec.startLocal] at he
 
 theorem ex_fbInFlight_eq (c : Config Exec.Shared Exec.Local) :
     Exec.fbInFlight c = ((c.locals.map ex_glL).filter (· == .running)).length := by
@@ -680,10 +857,8 @@ theorem ex_fbInFlight_eq (c : Config Exec.Shared Exec.Local) :
       | fbDec o => cases o <;> simpa [ex_glL, ex_gl] using ih
       | _ => simpa [ex_glL, ex_gl] using ih
 
-theorem ex_allDone_inRegion (ls : List Exec.Local)
-    (h : (ls.all fun l => match l with
-      | .call _ _ (.done _) => true | .call .. => false | .op _ _ _ k => decide (3 ≤ k)) = true) :
-    (ls.map ex_glL).countP inRegion = 0 := by
+theorem ex_allDone_inRegion (c : Config Exec.Shared Exec.Local) (h : Exec.allDone c = true) :
+    (c.locals.map ex_glL).countP inRegion = 0 := by
   rw [List.countP_eq_zero]
   intro g hg
   simp only [List.mem_map] at hg
@@ -702,8 +877,8 @@ theorem ex_cnt_zero (ls : List RunDyn.Local) (h : ∀ l ∈ ls, rd_wL l = 0) : r
     simp only [rd_cnt, h a (List.mem_cons_self ..), ih (fun l hl => h l (List.mem_cons_of_mem _ hl))]
     rfl
 
-theorem ex_allDone_cnt (jobs : List Exec.Job) (fd : Bool) (fm : Int) (dis : Bool) (c : Config Exec.Shared Exec.Local)
-    (I : ex_FInv jobs fd fm dis c) (h : Exec.allDone c = true) : rd_cnt (c.locals.map ex_pl) = 0 := by
+theorem ex_allDone_cnt (jobs : List Exec.Job) (dis fd : Bool) (fm : Int) (c : Config Exec.Shared Exec.Local)
+    (I : ex_FInv jobs dis fd fm c) (h : Exec.allDone c = true) : rd_cnt (c.locals.map ex_pl) = 0 := by
   apply ex_cnt_zero
   intro g hg
   simp only [List.mem_map] at hg
@@ -720,8 +895,8 @@ theorem ex_allDone_cnt (jobs : List Exec.Job) (fd : Bool) (fm : Int) (dis : Bool
 
 /-! ### progress -/
 
-theorem ex_progress (jobs : List Exec.Job) (fd : Bool) (fm : Int) (dis : Bool) (io : Bool) (c : Config Exec.Shared Exec.Local)
-    (F : ex_FInv jobs fd fm dis c) (T : rd_TInv io (ex_proj c)) (hnd : Exec.allDone c = false) :
+theorem ex_progress (jobs : List Exec.Job) (dis fd : Bool) (fm : Int) (io : Bool) (c : Config Exec.Shared Exec.Local)
+    (F : ex_FInv jobs dis fd fm c) (T : rd_TInv io (ex_proj c)) (hnd : Exec.allDone c = false) :
     ∃ i l, c.locals[i]? = some l ∧ (Exec.step i c.shared l).isSome = true := by
   -- a call thread still inside `c.run` whose Run thread can step, steps
   have hrun : ∀ i l fb, (∀ r, l.pc ≠ .done r) → (Run.step i c.shared.r l).isSome = true →
@@ -759,9 +934,9 @@ theorem ex_progress (jobs : List Exec.Job) (fd : Bool) (fm : Int) (dis : Bool) (
     obtain ⟨i, hl⟩ := List.mem_iff_getElem?.mp hm
     refine ⟨i, l, hl, ?_⟩
     cases l with
-    | op fo fc m k =>
-      have hk : k < 3 := by simpa using hpc
-      exact ex_step_op_isSome i _ fo fc m k hk
+    | op cfg k =>
+      have hk : k < 6 := by simpa using hpc
+      exact ex_step_op_isSome i _ cfg k hk
     | call l fb pc =>
       by_cases hp : pc = .running
       · subst hp
@@ -826,22 +1001,43 @@ theorem ex_job_exec {jobs : List Exec.Job} {i : Nat} {sc : Run.Script} {fb fb' :
   simp only [Option.bind_some, ex_jobOf, Option.some.injEq, Prod.mk.injEq] at h
   exact ⟨h.1.symm, h.2.symm⟩
 
-theorem ex_return_value (jobs : List Exec.Job) (fd : Bool) (fm : Int) (c : Config Exec.Shared Exec.Local)
-    (F : ex_FInv jobs fd fm false c) (i : Nat) (sc : Run.Script) (fb : FbScript) (o : Out)
+/-- a finished Execute went one way or the other: straight to its run function, or through the circuit -/
+theorem ex_old_or_new (jobs : List Exec.Job) (dis fd : Bool) (fm : Int) (c : Config Exec.Shared Exec.Local)
+    (I : ex_Inv jobs dis fd fm c) (i : Nat) (sc : Run.Script) (fb : FbScript) (o : Out)
     (hj : jobs[i]? = some (.exec sc fb)) (ho : Exec.outOf c i = some o) :
-    ∃ r, Exec.runResOf c i = some r ∧ ex_contract sc fb fd fm r o ∧ Exec.directCount c i = 0 := by
+    (ex_dc i c.shared.direct = 1 ∧ re_evs i c.shared.r.events = [] ∧ ex_fevs i c.shared.fbEvents = [] ∧
+        o = ex_passOut sc ∧ ex_everDisabled dis jobs = true) ∨
+    (ex_dc i c.shared.direct = 0 ∧ ∃ r, Exec.runResOf c i = some r ∧
+        ex_contract sc fb (ex_everFbDisabled fd jobs) (ex_someFbLimitNonneg fm jobs) r o) := by
   obtain ⟨l, fb', hl⟩ := ex_outOf ho
-  have hok := F.ok i
+  have hok := I.F.ok i
   rw [hl] at hok
   obtain ⟨hjob, hok⟩ := hok
   obtain ⟨h1, rfl⟩ := ex_job_exec hj hjob
-  rcases hok with ⟨_, hdc, _, r, hr, hc⟩ | ⟨hd, _⟩
+  rcases hok with ⟨_, hdc, _, r, hr, hc⟩ | ⟨hd, hlpc, he, hdc, hoo⟩
   · rw [h1] at hc
-    exact ⟨r, ex_runResOf_mk hl (by simp) (by simp) (by simp) hr, hc, hdc⟩
-  · cases hd
+    exact Or.inr ⟨hdc, r, ex_runResOf_mk hl (by simp) (by simp) (by simp) hr, hc⟩
+  · rw [h1] at hoo
+    refine Or.inl ⟨hdc, ?_, he, hoo, hd⟩
+    have hE := I.E i
+    have : (ex_proj c).locals[i]? = some (.call l) := by simp [ex_proj, List.getElem?_map, hl, ex_pl]
+    rw [this] at hE
+    obtain ⟨job, lpc, sw⟩ := l
+    simp only at h1 hlpc
+    subst h1 hlpc
+    exact hE.2
 
-theorem ex_done_events (jobs : List Exec.Job) (fd : Bool) (fm : Int) (dis : Bool) (c : Config Exec.Shared Exec.Local)
-    (F : ex_FInv jobs fd fm dis c) (i : Nat) (o : Out) (ho : Exec.outOf c i = some o) :
+theorem ex_return_value (jobs : List Exec.Job) (dis fd : Bool) (fm : Int) (c : Config Exec.Shared Exec.Local)
+    (I : ex_Inv jobs dis fd fm c) (hd : ex_everDisabled dis jobs = false) (i : Nat) (sc : Run.Script) (fb : FbScript) (o : Out)
+    (hj : jobs[i]? = some (.exec sc fb)) (ho : Exec.outOf c i = some o) :
+    ∃ r, Exec.runResOf c i = some r ∧
+      ex_contract sc fb (ex_everFbDisabled fd jobs) (ex_someFbLimitNonneg fm jobs) r o ∧ Exec.directCount c i = 0 := by
+  rcases ex_old_or_new jobs dis fd fm c I i sc fb o hj ho with ⟨_, _, _, _, h⟩ | ⟨hdc, r, hr, hc⟩
+  · rw [hd] at h; cases h
+  · exact ⟨r, hr, hc, hdc⟩
+
+theorem ex_done_events (jobs : List Exec.Job) (dis fd : Bool) (fm : Int) (c : Config Exec.Shared Exec.Local)
+    (F : ex_FInv jobs dis fd fm c) (i : Nat) (o : Out) (ho : Exec.outOf c i = some o) :
     ex_fevs i c.shared.fbEvents = ex_outEvs o := by
   obtain ⟨l, fb', hl⟩ := ex_outOf ho
   have hok := F.ok i
@@ -850,8 +1046,8 @@ theorem ex_done_events (jobs : List Exec.Job) (fd : Bool) (fm : Int) (dis : Bool
   · exact he
   · rw [he, ho, ex_outEvs_passOut]
 
-theorem ex_shapes (jobs : List Exec.Job) (fd : Bool) (fm : Int) (dis : Bool) (c : Config Exec.Shared Exec.Local)
-    (F : ex_FInv jobs fd fm dis c) (i : Nat) :
+theorem ex_shapes (jobs : List Exec.Job) (dis fd : Bool) (fm : Int) (c : Config Exec.Shared Exec.Local)
+    (F : ex_FInv jobs dis fd fm c) (i : Nat) :
     ex_fevs i c.shared.fbEvents = [] ∨ ex_fevs i c.shared.fbEvents = [.invoked] ∨ ex_fevs i c.shared.fbEvents = [.reject] ∨
       ex_fevs i c.shared.fbEvents = [.invoked, .success] ∨ ex_fevs i c.shared.fbEvents = [.invoked, .failure] := by
   have hok := F.ok i
@@ -863,7 +1059,7 @@ theorem ex_shapes (jobs : List Exec.Job) (fd : Bool) (fm : Int) (dis : Bool) (c 
   | some l =>
     rw [hl] at hok
     cases l with
-    | op => exact Or.inl hok.1
+    | op => exact Or.inl hok.2.1
     | call l fb pc =>
       have h2 := hok.2
       cases pc <;> simp only [ex_ok] at h2
@@ -875,17 +1071,17 @@ theorem ex_shapes (jobs : List Exec.Job) (fd : Bool) (fm : Int) (dis : Bool) (c 
            · rw [h2.1]; exact hout _
            · exact Or.inl h2.2.2.1)
 
-theorem ex_contract_quiet (sc : Run.Script) (fb : FbScript) (fd : Bool) (fm : Int) (r : Run.Res) (o : Out)
-    (hc : ex_contract sc fb fd fm r o)
-    (h : runFailed sc r = false ∨ runBad sc r = true ∨ r = .panicked ∨ fd = true ∨ fb.present = false) :
+theorem ex_contract_quiet (sc : Run.Script) (fb : FbScript) (mbd mbl : Bool) (r : Run.Res) (o : Out)
+    (hc : ex_contract sc fb mbd mbl r o)
+    (h : runFailed sc r = false ∨ runBad sc r = true ∨ r = .panicked ∨ fb.present = false) :
     ex_outEvs o = [] := by
-  rcases h with h | h | h | h | h <;> cases r <;> simp_all [ex_contract, runFailed, runBad] <;>
+  rcases h with h | h | h | h <;> cases r <;> simp_all [ex_contract, runFailed, runBad] <;>
     (try (repeat' split at hc)) <;> simp_all [ex_outEvs]
 
-theorem ex_not_consulted (jobs : List Exec.Job) (fd : Bool) (fm : Int) (dis : Bool) (c : Config Exec.Shared Exec.Local)
-    (F : ex_FInv jobs fd fm dis c) (i : Nat) (sc : Run.Script) (fb : FbScript) (r : Run.Res)
+theorem ex_not_consulted (jobs : List Exec.Job) (dis fd : Bool) (fm : Int) (c : Config Exec.Shared Exec.Local)
+    (F : ex_FInv jobs dis fd fm c) (i : Nat) (sc : Run.Script) (fb : FbScript) (r : Run.Res)
     (hj : jobs[i]? = some (.exec sc fb)) (hr : Exec.runResOf c i = some r)
-    (h : runFailed sc r = false ∨ runBad sc r = true ∨ r = .panicked ∨ fd = true ∨ fb.present = false) :
+    (h : runFailed sc r = false ∨ runBad sc r = true ∨ r = .panicked ∨ fb.present = false) :
     ex_fevs i c.shared.fbEvents = [] := by
   obtain ⟨l, fb', pc, hl, hp, hg, hq, hlpc⟩ := ex_runResOf hr
   have hok := F.ok i
@@ -893,10 +1089,10 @@ theorem ex_not_consulted (jobs : List Exec.Job) (fd : Bool) (fm : Int) (dis : Bo
   obtain ⟨hjob, hok⟩ := hok
   obtain ⟨h1, rfl⟩ := ex_job_exec hj hjob
   rw [h1, hlpc] at hok
-  have hquiet : ∀ o, (∃ r', Run.Pc.done r = .done r' ∧ ex_contract sc fb' fd fm r' o) → ex_outEvs o = [] := by
-    intro o ⟨r', e, hc⟩
+  have hquiet : ∀ o mbd mbl, (∃ r', Run.Pc.done r = .done r' ∧ ex_contract sc fb' mbd mbl r' o) → ex_outEvs o = [] := by
+    intro o mbd mbl ⟨r', e, hc⟩
     cases e
-    exact ex_contract_quiet sc fb' fd fm r o hc h
+    exact ex_contract_quiet sc fb' mbd mbl r o hc h
   cases pc <;> simp only [ex_ok, ex_sc] at hok
   · exact absurd rfl hg
   · exact hok.1
@@ -909,27 +1105,27 @@ theorem ex_not_consulted (jobs : List Exec.Job) (fd : Bool) (fm : Int) (dis : Bo
   · exact hok.1
   · -- delivering: the fallback was invoked, so none of the reasons not to consult it applies
     exfalso
-    obtain ⟨_, _, _, hd, _, _, r', e, h2, h3, h4, h5, h6⟩ := hok
+    obtain ⟨_, _, _, _, _, r', e, h2, h3, h4, h5, h6⟩ := hok
     cases e
-    rcases h with h | h | h | h | h <;> simp_all
-  · rw [hok.1]; exact hquiet _ hok.2.2.2
+    rcases h with h | h | h | h <;> simp_all
+  · rw [hok.1]; exact hquiet _ _ _ hok.2.2.2
   · rcases hok with hok | hok
-    · rw [hok.1]; exact hquiet _ hok.2.2.2
+    · rw [hok.1]; exact hquiet _ _ _ hok.2.2.2
     · exact hok.2.2.1
 
-theorem ex_limit_nonneg (sc : Run.Script) (fb : FbScript) (fd : Bool) (fm : Int) (r : Run.Res)
-    (hc : ex_contract sc fb fd fm r .limit) : 0 ≤ fm := by
+theorem ex_limit_may (sc : Run.Script) (fb : FbScript) (mbd mbl : Bool) (r : Run.Res)
+    (hc : ex_contract sc fb mbd mbl r .limit) : mbl = true := by
   cases r <;> simp only [ex_contract, reduceCtorEq] at hc <;> (repeat' split at hc) <;> simp_all
 
-theorem ex_never_limit (jobs : List Exec.Job) (fd : Bool) (fm : Int) (dis : Bool) (c : Config Exec.Shared Exec.Local)
-    (F : ex_FInv jobs fd fm dis c) (hfm : fm < 0) (i : Nat) : Exec.outOf c i ≠ some .limit := by
+theorem ex_never_limit (jobs : List Exec.Job) (dis fd : Bool) (fm : Int) (c : Config Exec.Shared Exec.Local)
+    (F : ex_FInv jobs dis fd fm c) (hfm : ex_someFbLimitNonneg fm jobs = false) (i : Nat) : Exec.outOf c i ≠ some .limit := by
   intro ho
   obtain ⟨l, fb', hl⟩ := ex_outOf ho
   have hok := F.ok i
   rw [hl] at hok
   rcases hok.2 with ⟨_, _, _, r, _, hc⟩ | ⟨_, _, _, _, ho⟩
-  · have := ex_limit_nonneg _ _ _ _ _ hc
-    omega
+  · have := ex_limit_may _ _ _ _ _ hc
+    rw [hfm] at this; cases this
   · exact ex_passOut_ne_limit _ ho
 
 theorem ex_run_events (jobs : List Exec.Job) (c : Config Exec.Shared Exec.Local)
@@ -946,15 +1142,17 @@ theorem ex_run_events (jobs : List Exec.Job) (c : Config Exec.Shared Exec.Local)
     simp [RunDyn.resultOf, ex_proj, List.getElem?_map, hl, ex_pl]
   exact rd_exact (jobs.map ex_pj) (ex_proj c) E i sc r hj' hr'
 
-/-! ### the kill switch -/
+/-! ### the kill switch always on -/
 
-/-- with the kill switch on a call thread of an `exec` job never leaves the gate / the direct call -/
-theorem ex_kill_exec (jobs : List Exec.Job) (fd : Bool) (fm : Int) (c : Config Exec.Shared Exec.Local)
-    (F : ex_FInv jobs fd fm true c) (i : Nat) (sc : Run.Script) (fb : FbScript) (hj : jobs[i]? = some (.exec sc fb)) :
+/-- with the kill switch on for good a call thread of an `exec` job never leaves the gate / the direct call -/
+theorem ex_kill_exec (jobs : List Exec.Job) (dis fd : Bool) (fm : Int) (c : Config Exec.Shared Exec.Local)
+    (F : ex_FInv jobs dis fd fm c) (hA : ex_alwaysDisabled dis jobs = true)
+    (i : Nat) (sc : Run.Script) (fb : FbScript) (hj : jobs[i]? = some (.exec sc fb)) :
     ex_fevs i c.shared.fbEvents = [] ∧ ex_dc i c.shared.direct ≤ 1 ∧
       (∀ l fb' pc, c.locals[i]? = some (.call l fb' pc) → l.job = .call sc ∧ l.pc = .aFO) ∧
       ∀ o, Exec.outOf c i = some o → o = ex_passOut sc ∧ ex_dc i c.shared.direct = 1 := by
   have hok := F.ok i
+  rw [hA] at hok
   cases hl : c.locals[i]? with
   | none =>
     rw [hl] at hok
@@ -964,7 +1162,7 @@ theorem ex_kill_exec (jobs : List Exec.Job) (fd : Bool) (fm : Int) (c : Config E
     rw [hl] at hok
     cases x with
     | op =>
-      refine ⟨hok.1, by rw [hok.2]; decide, (fun _ _ _ e => by cases e), ?_⟩
+      refine ⟨hok.2.1, by rw [hok.2.2]; decide, (fun _ _ _ e => by cases e), ?_⟩
       intro o ho; simp [Exec.outOf, hl] at ho
     | call l fb' pc =>
       obtain ⟨hjob, hok⟩ := hok
@@ -1002,11 +1200,12 @@ theorem ex_kill_exec (jobs : List Exec.Job) (fd : Bool) (fm : Int) (c : Config E
         exact key.2.2.2 o rfl
 
 /-- … so it tells the run collectors nothing -/
-theorem ex_kill_run_events (jobs : List Exec.Job) (fd : Bool) (fm : Int) (c : Config Exec.Shared Exec.Local)
-    (I : ex_Inv jobs fd fm true c) (i : Nat) (sc : Run.Script) (fb : FbScript) (hj : jobs[i]? = some (.exec sc fb)) :
+theorem ex_kill_run_events (jobs : List Exec.Job) (dis fd : Bool) (fm : Int) (c : Config Exec.Shared Exec.Local)
+    (I : ex_Inv jobs dis fd fm c) (hA : ex_alwaysDisabled dis jobs = true)
+    (i : Nat) (sc : Run.Script) (fb : FbScript) (hj : jobs[i]? = some (.exec sc fb)) :
     re_evs i c.shared.r.events = [] := by
   have hE := I.E i
-  obtain ⟨_, _, hK, _⟩ := ex_kill_exec jobs fd fm c I.F i sc fb hj
+  obtain ⟨_, _, hK, _⟩ := ex_kill_exec jobs dis fd fm c I.F hA i sc fb hj
   cases hl : c.locals[i]? with
   | none =>
     have : (ex_proj c).locals[i]? = none := by simp [ex_proj, List.getElem?_map, hl]
@@ -1014,8 +1213,9 @@ theorem ex_kill_run_events (jobs : List Exec.Job) (fd : Bool) (fm : Int) (c : Co
     exact hE
   | some x =>
     cases x with
-    | op a b k st =>
-      have : (ex_proj c).locals[i]? = some (.op a b k st) := by simp [ex_proj, List.getElem?_map, hl, ex_pl]
+    | op cfg st =>
+      have : (ex_proj c).locals[i]? = some (.op cfg.fo cfg.fc cfg.limit (ex_stage st)) := by
+        simp [ex_proj, List.getElem?_map, hl, ex_pl]
       rw [this] at hE
       exact hE.2
     | call l fb' pc =>
@@ -1027,9 +1227,10 @@ theorem ex_kill_run_events (jobs : List Exec.Job) (fd : Bool) (fm : Int) (c : Co
       subst h1 h2
       exact hE.2
 
-/-- … and with the kill switch on nobody holds a slot of either bulkhead -/
-theorem ex_kill_gauges (jobs : List Exec.Job) (fd : Bool) (fm : Int) (c : Config Exec.Shared Exec.Local)
-    (I : ex_Inv jobs fd fm true c) : rd_cnt (c.locals.map ex_pl) = 0 ∧ (c.locals.map ex_glL).countP inRegion = 0 := by
+/-- … and with the kill switch on for good nobody holds a slot of either bulkhead -/
+theorem ex_kill_gauges (jobs : List Exec.Job) (dis fd : Bool) (fm : Int) (c : Config Exec.Shared Exec.Local)
+    (I : ex_Inv jobs dis fd fm c) (hA : ex_alwaysDisabled dis jobs = true) :
+    rd_cnt (c.locals.map ex_pl) = 0 ∧ (c.locals.map ex_glL).countP inRegion = 0 := by
   constructor
   · apply ex_cnt_zero
     intro g hg
@@ -1037,7 +1238,7 @@ theorem ex_kill_gauges (jobs : List Exec.Job) (fd : Bool) (fm : Int) (c : Config
     obtain ⟨l, hl, rfl⟩ := hg
     obtain ⟨i, hi⟩ := List.mem_iff_getElem?.mp hl
     have hok := I.F.ok i
-    rw [hi] at hok
+    rw [hi, hA] at hok
     cases l with
     | op => rfl
     | call l fb pc =>
@@ -1068,7 +1269,7 @@ theorem ex_kill_gauges (jobs : List Exec.Job) (fd : Bool) (fm : Int) (c : Config
     obtain ⟨l, hl, rfl⟩ := hg
     obtain ⟨i, hi⟩ := List.mem_iff_getElem?.mp hl
     have hok := I.F.ok i
-    rw [hi] at hok
+    rw [hi, hA] at hok
     cases l with
     | op => simp [ex_glL, inRegion]
     | call l fb pc =>
